@@ -1,0 +1,18 @@
+//go:build verif
+// +build verif
+
+package sshsb
+
+import (
+	"io"
+
+	"github.com/goatcms/goatcore/app/modules/commonm/commservices"
+)
+
+// VerifInitSequence exposes the private start-up script builder of the SSH sandbox to
+// runtime monitors. It exists only in builds with the "verif" tag and adds no behaviour:
+// it returns exactly what SSHSandbox.Run feeds to the remote shell before the pipeline input.
+func VerifInitSequence(entrypoint string, envs commservices.Environments) (io.Reader, error) {
+	sandbox := &SSHSandbox{entrypoint: entrypoint}
+	return sandbox.initSequence(envs)
+}
